@@ -282,7 +282,7 @@ func c14connTwin(r *simkit.Run) {
 	limit := rapid.IntRange(0, 4).Draw(rt, "limit")
 	sim := simrt.New(r.Chooser())
 	defer sim.Shutdown()
-	extract, _ := utils.NewExtractor("request.header.Src")
+	extract, _ := utils.NewExtractor("request.header." + rapid.SampledFrom([]string{"Src", "Src", "src", "SRC", "sRC"}).Draw(rt, "source-header-spelling"))
 	type twinReq struct {
 		src     int
 		entered [2]bool
